@@ -23,6 +23,7 @@ mod c15;
 mod c16;
 mod c17;
 mod c18;
+mod c19;
 mod c20;
 
 fn main() {
@@ -49,6 +50,7 @@ fn main() {
         "c20-drive" => c20::drive(rest),
         "c18-replay" => c18::replay(rest),
         "c18-parse" => c18::parse(rest),
+        "c19-run" => c19::run(rest),
         "c16-queue" => c16::queue(rest),
         "c09-drive" => c09::drive(rest),
         "c10-drive" => c10::drive(rest),
